@@ -15,11 +15,12 @@ Histories / forms of use added to both oracles (a cell is a value - how the call
    more, by changing `builder.type_` - and ended again (end_cell / to_cell). In the metamorphic check this is literally the
    operation of the statement: the builders of X are kept, the child is replaced by its pruned branch in them, they are ended again;
    the result must equal the freshly built X' in every observable, and the cells ended first must still hold their old children.
- * generic Python copies: copy.copy / copy.deepcopy / pickle (protocols 0, 2, highest) of a cell, of a list holding it, of a
+ * generic Python copies: copy.copy / copy.deepcopy / pickle (protocol 0 / 2 / default / highest) of a cell, of a list holding it, of a
    builder / slice holding it must report the same mask / hashes / depths on the whole copied subtree, and an ordinary cell and a
    Merkle proof BUILT ON the copy must have the specified hashes (copies that raise are not judged: not promised by the statement).
  * depth limit: grid 'depth-limit-x-merkle' - pruned branches whose stored depth at ONE significant level (or all) is 1021..1023
-   and small elsewhere, real chains of 1004 / 1023 cells with the bottom pruned, under 19 ancestor shapes of ordinary / Merkle
+   and small elsewhere, real chains of 1003..1023 cells with the bottom pruned so that
+   the virtual depth is exactly 1022 / 1023, under 19 ancestor shapes of ordinary / Merkle
    proof / Merkle update cells; every case in which the reference says all depths at all levels are <= 1023 must construct and
    parse (the virtual level-0 depth of a Merkle cell's child does not count for the Merkle cell). The metamorphic generator also
    draws stored depths 1016 / 1021 / 1022 (cases the reference calls too deep are skipped).
@@ -36,7 +37,8 @@ RULE = ('case = exotic DAG spec (ordinary / derived pruned / raw pruned masks 1.
         'other contents and corrected in one of 7 ways, chosen per node by hist); every case also takes generic Python copies '
         '(copy, deepcopy, pickle) of two nodes and builds parents on them; metamorphic cases add a target node, a pruning level '
         'and a mode (fresh builders / the builders of X edited and ended again); depth-limit grid: stored depths 1021..1023 at one '
-        'level x 19 ancestor shapes, kept when the reference says every depth <= 1023. '
+        'level x 19 ancestor shapes, kept when the reference says every depth <= 1023 (non-trivial there = some depth is exactly '
+        '1023). '
         'non-trivial = contains a cell with mask >= 2 or a mask with a gap (2,4,5,6) or Merkle nesting >= 2; '
         'distinct = distinct case')
 ASSUMPTIONS = ['harness/ref/refcell.py transcription of DataCell.cpp level/hash rules (validated on the pinned main-net block; '
@@ -187,6 +189,7 @@ def check_copies(r, l, sel, what, full=True):
         ok, d = call(thunk)
         if not ok:
             continue                              # not promised by the statement
+        fam = 'pickle' if name.startswith('pickle') else 'deepcopy' if 'deepcopy' in name else 'copy'
         stack, seen = [(r, d)], set()
         while stack:
             a, b = stack.pop()
@@ -194,10 +197,10 @@ def check_copies(r, l, sel, what, full=True):
                 continue
             seen.add(id(a))
             if getattr(b, 'type_', None) != a.type or len(b.refs) != len(a.refs) or b.bits.to01() != a.bits:
-                return Fail(f'copied/structure-differs/{name.split("-proto")[0]}', f'{what}: {name}')
+                return Fail(f'copied/structure-differs/{fam}', f'{what}: {name}')
             f = cmp_node(a, b, f'{name} of {what}')
             if f:
-                return Fail('copied/' + f.signature + '/' + name.split('-proto')[0], f.detail)
+                return Fail(f'copied/{f.signature.split("/")[0]}/{fam}', f.detail)
             stack.extend(zip(a.refs, b.refs))
         for pr, mk in ((par, lambda: Builder().store_bits('1').store_ref(d).end_cell()),
                        (mpr, lambda: Builder(type_=3).store_bits(mpr.bits).store_ref(d).end_cell())):
@@ -205,10 +208,10 @@ def check_copies(r, l, sel, what, full=True):
                 continue
             ok, lp = call(mk)
             if not ok:
-                return Fail(f'built-on-copy/construction-raises/type{pr.type}', f'{what}: {name}: {exc_sig(lp)}: {lp!r}')
+                return Fail(f'built-on-copy/construction-raises/{fam}', f'{what}: {name}: type {pr.type} cell: {exc_sig(lp)}: {lp!r}')
             f = cmp_node(pr, lp, f'type {pr.type} cell built on {name} of {what}')
             if f:
-                return Fail('built-on-copy/' + f.signature + '/' + name.split('-proto')[0], f.detail)
+                return Fail(f'built-on-copy/{f.signature.split("/")[0]}/{fam}', f.detail)
     return None
 
 
@@ -220,9 +223,12 @@ def check_model(case):
         lib = lib_reused(cells, case.get('hist', 0)) if route == 'reused' else dag.lib_from_ref(cells, route)
     except Exception as e:
         masks = sorted({c.mask() for c in cells})
-        return Fail(f'construction-raises/{type(e).__name__}:{str(e)[:40]}', f'{exc_sig(e)} route={route} masks present={masks}')
+        return Fail(f'construction-raises/{type(e).__name__}:{str(e)[:40]}', f'{exc_sig(e)} route={route} hist={case.get("hist")} masks present={masks}')
     for k, (r, l) in enumerate(zip(cells, lib)):
         f = cmp_node(r, l, f'{route} node {k}')
+        if f and route == 'reused':
+            hist = HISTS[(case.get('hist', 0) + k) % len(HISTS)]
+            return Fail(f.signature.split('/')[0] + '/builder-ended-before', f'history {hist!r} of the builder: ' + f.detail)
         if f:
             return f
         if l.type_ != r.type:
@@ -507,7 +513,7 @@ def check_meta(case):
         for k in range(len(spec)):
             w = _same_cell(Yr[k], Y[k])
             if w:
-                return Fail(f'builder-reuse/{w}-differs-from-fresh-build/type{Y[k].type_}',
+                return Fail(f'builder-reuse/{w}-differs-from-fresh-build',
                             f'{mode}: node {k} ended from the builder node {k} of X was ended from, after node {t} was replaced in it '
                             f'by its pruned branch of level {d}: {w} differs from the same contents ended from a fresh builder '
                             f'(mask {Yr[k].level_mask.mask} vs {Y[k].level_mask.mask})')
